@@ -43,7 +43,11 @@ class Server(object):
         except BaseException as e:  # code run on behalf of a request (eval, module imports) must not end the server
             logger.exception('%s error', name)
             is_ok = False
-            result = e.__class__.__name__, str(e)
+            try:
+                message = str(e)
+            except Exception:  # an exception whose own __str__ fails is still reported, as traceback does it
+                message = '<exception str() failed>'
+            result = e.__class__.__name__, message
 
         # logger.error('PROCESS %r %r %r: %r', name, args, kwargs, result)
         return result, is_ok
